@@ -155,7 +155,7 @@ impl Object for Function {
 
                         let size = try_opt!(info.size);
                         let range = try_opt!(info.range);
-                        let encode = info.encode.unwrap_or_else(|| size.iter().flat_map(|&n| [0.0, (n-1) as f32]).collect());
+                        let encode = info.encode.unwrap_or_else(|| size.iter().flat_map(|&n| [0.0, n.saturating_sub(1) as f32]).collect());
                         let decode = info.decode.unwrap_or_else(|| range.clone());
 
                         Ok(Function::Sampled(SampledFunction {
